@@ -3,7 +3,7 @@
     set is given as a list of flags by validator index.  The correspondence check runs these on the
     signature logs of real ConsensusStates (harness/overlay/consensus/verif_net_test.go). *)
 From Coq Require Import List ZArith Arith Bool.
-From Kardia Require Import C01.Power C01.Agreement C01.Checker.
+From Kardia Require Import C01.Power C01.Agreement C01.Checker C01.Sync.
 Import ListNotations.
 Local Open Scope Z_scope.
 
@@ -45,3 +45,32 @@ Proof.
   - apply run_commit_quorum_sound; exact Hc.
   - apply run_commit_quorum_sound; exact Hc'.
 Qed.
+
+(** ---- VerifyCommit and the block-sync processor (C01/Sync.v) at block ids = nat, 0 = the zero id ---- *)
+
+Definition bid_of (b : nat) : option nat := match b with O => None | S _ => Some b end.
+
+Definition mk_slot (f : nat) (addr_zero time_zero sig_empty : bool) (signer : option nat) : slot :=
+  mkSlot (match f with
+          | 1%nat => FAbsent | 2%nat => FCommit | 3%nat => FNil | _ => FUnknown end)
+         addr_zero time_zero sig_empty signer.
+
+Definition mk_commit (h r b : nat) (sl : list slot) : commit nat := mkCommit nat h r (bid_of b) sl.
+
+Definition run_verify_commit (powers : list Z) (hw bw : nat) (oc : option (commit nat)) : vresult :=
+  verify_commit nat Nat.eq_dec powers hw (bid_of bw) oc.
+
+(** the powers entitled to sign height k+1 are the k-th entry of the table the harness supplies *)
+Definition run_powers_of (pv : list (list Z)) (c : list nat) : list Z := nth (length c) pv [].
+
+Definition mk_blk (h id : nat) (lc : option (commit nat)) : blk nat := mkBlk nat h id lc.
+
+Definition run_p_init : pstate nat := p_init nat.
+
+Definition run_p_handle (pv : list (list Z)) (st : pstate nat) (ev : pevent nat) : pstate nat * pout :=
+  p_handle nat Nat.eq_dec (run_powers_of pv) (fun _ _ => true) st ev.
+
+Definition ev_block (peer : nat) (b : blk nat) : pevent nat := EvBlock nat peer b.
+Definition ev_process : pevent nat := EvProcess nat.
+Definition ev_peer_error (peer : nat) : pevent nat := EvPeerError nat peer.
+Definition ev_finished : pevent nat := EvFinished nat.
